@@ -625,7 +625,7 @@ def main():
                 elif r["failures"]:
                     tag = "FAIL x%d" % len(r["failures"])
                 log("  %-40s %-8s %7.1fs %6dMB props=%d wit=%d  %s" % (
-                    j["entry"], r["backend"], r["wall_s"], r["max_rss_kb"] // 1024, r["n_props"], r["witnesses_ok"], tag))
+                    (j["entry"] + " [" + j["unit"] + "]")[:40], r["backend"], r["wall_s"], r["max_rss_kb"] // 1024, r["n_props"], r["witnesses_ok"], tag))
         results.sort(key=lambda r: r["entry"])
         # every witness label must be reachable in at least one obligation of this run
         reached = {w for r in results for w in r.get("wit_reached", [])}
@@ -694,7 +694,7 @@ def main():
         samples = []
         for r in results[:400]:
             j = r["job"]
-            samples.append(dict(obligation=r["entry"], what=j.get("what", ""), bounds=j.get("bounds", ""),
+            samples.append(dict(obligation=r["entry"], unit=j["unit"], what=j.get("what", ""), bounds=j.get("bounds", ""),
                                 unwind=j.get("unwind"), unwindset=j.get("unwindset"), backend=r["backend"],
                                 cbmc_properties=r["n_props"], succeeded=r["n_success"],
                                 witnesses_reached=r["witnesses_ok"], must_fail_twins=r["must_fail_ok"],
